@@ -43,8 +43,9 @@ ListsOver(E, za, deep) ==
 
 MapsOver(E, za, deep) ==
   LET a == za[1] b == za[2]
-  IN {Nil, MapV(EmptyFn), MapV([key \in {"k1"} |-> a]), MapV([key \in {"k1", "k2"} |-> IF key = "k1" THEN b ELSE a])}
-     \cup (IF deep THEN {MapV([key \in {"k2"} |-> a]), MapV([key \in {"k1"} |-> b]), MapV([key \in {"k2", "k3"} |-> b])} ELSE {})
+  \* same size with another key set, subset / superset, disjoint: all in the quick tier already
+  IN {Nil, MapV(EmptyFn), MapV([key \in {"k1"} |-> a]), MapV([key \in {"k2"} |-> a]), MapV([key \in {"k1", "k2"} |-> IF key = "k1" THEN b ELSE a])}
+     \cup (IF deep THEN {MapV([key \in {"k1"} |-> b]), MapV([key \in {"k2", "k3"} |-> b]), MapV([key \in {"k1", "k3"} |-> a])} ELSE {})
 
 RECURSIVE MsgVals(_, _, _)
 RECURSIVE ApplyUnits(_, _, _, _, _)
